@@ -636,3 +636,90 @@ CAMLprim value vp_heap_in_use(value unit)
 	struct mallinfo2 mi = mallinfo2();
 	return caml_copy_int64((int64_t) (mi.uordblks + mi.hblkhd));
 }
+
+/* ---- C15: recorder at the boundary between compression.c and the four libraries ------------
+   compression.c is compiled with the library entry points renamed to the vp_ functions below
+   (harness/Makefile, shim_compression.o).  Each forwards to the real function; while recording
+   is on (single-threaded round trips of engine c15 only) it notes what the wrapper passed:
+   function, level, source length, destination capacity, and the library's return value. */
+#include <lz4.h>
+#include <lz4hc.h>
+#include <snappy-c.h>
+#include <zlib.h>
+#include <zstd.h>
+enum { VP_LZ4C = 1, VP_LZ4HC, VP_LZ4D, VP_ZSTDC, VP_ZSTDD, VP_SNAPC, VP_SNAPD, VP_ZINIT, VP_ZBOUND, VP_DEFLATE, VP_INFLATE };
+struct vp_libcall { int fn; long level, srclen, cap, ret; };
+static struct vp_libcall vp_calls[256];
+static int vp_ncalls;
+static volatile int vp_rec_on;
+static void vp_note(int fn, long level, long srclen, long cap, long ret)
+{
+	if (!vp_rec_on || vp_ncalls >= 256) return;
+	vp_calls[vp_ncalls].fn = fn; vp_calls[vp_ncalls].level = level; vp_calls[vp_ncalls].srclen = srclen;
+	vp_calls[vp_ncalls].cap = cap; vp_calls[vp_ncalls].ret = ret; vp_ncalls++;
+}
+int vp_LZ4_compress_default(const char *src, char *dst, int srcSize, int dstCapacity)
+{ int r = LZ4_compress_default(src, dst, srcSize, dstCapacity); vp_note(VP_LZ4C, 0, srcSize, dstCapacity, r); return r; }
+int vp_LZ4_compress_HC(const char *src, char *dst, int srcSize, int dstCapacity, int level)
+{ int r = LZ4_compress_HC(src, dst, srcSize, dstCapacity, level); vp_note(VP_LZ4HC, level, srcSize, dstCapacity, r); return r; }
+int vp_LZ4_decompress_safe(const char *src, char *dst, int compressedSize, int dstCapacity)
+{ int r = LZ4_decompress_safe(src, dst, compressedSize, dstCapacity); vp_note(VP_LZ4D, 0, compressedSize, dstCapacity, r); return r; }
+size_t vp_ZSTD_compress(void *dst, size_t dstCapacity, const void *src, size_t srcSize, int level)
+{ size_t r = ZSTD_compress(dst, dstCapacity, src, srcSize, level); vp_note(VP_ZSTDC, level, srcSize, dstCapacity, ZSTD_isError(r) ? -1 : (long) r); return r; }
+size_t vp_ZSTD_decompress(void *dst, size_t dstCapacity, const void *src, size_t compressedSize)
+{ size_t r = ZSTD_decompress(dst, dstCapacity, src, compressedSize); vp_note(VP_ZSTDD, 0, compressedSize, dstCapacity, ZSTD_isError(r) ? -1 : (long) r); return r; }
+snappy_status vp_snappy_compress(const char *input, size_t input_length, char *compressed, size_t *compressed_length)
+{ size_t cap = *compressed_length; snappy_status r = snappy_compress(input, input_length, compressed, compressed_length);
+  vp_note(VP_SNAPC, 0, input_length, cap, r == SNAPPY_OK ? (long) *compressed_length : -1); return r; }
+snappy_status vp_snappy_uncompress(const char *compressed, size_t compressed_length, char *uncompressed, size_t *uncompressed_length)
+{ size_t cap = *uncompressed_length; snappy_status r = snappy_uncompress(compressed, compressed_length, uncompressed, uncompressed_length);
+  vp_note(VP_SNAPD, 0, compressed_length, cap, r == SNAPPY_OK ? (long) *uncompressed_length : -1); return r; }
+int vp_deflateInit_(z_streamp strm, int level, const char *version, int stream_size)
+{ int r = deflateInit_(strm, level, version, stream_size); vp_note(VP_ZINIT, level, 0, 0, r); return r; }
+uLong vp_deflateBound(z_streamp strm, uLong sourceLen)
+{ uLong r = deflateBound(strm, sourceLen); vp_note(VP_ZBOUND, 0, sourceLen, 0, r); return r; }
+int vp_deflate(z_streamp strm, int flush)
+{ long in = strm->avail_in, out = strm->avail_out; int r = deflate(strm, flush); vp_note(VP_DEFLATE, flush, in, out, r); return r; }
+int vp_inflate(z_streamp strm, int flush)
+{ long in = strm->avail_in, out = strm->avail_out; int r = inflate(strm, flush); vp_note(VP_INFLATE, flush, in, out, r); return r; }
+
+CAMLprim value vp_rec_start(value unit) { vp_ncalls = 0; vp_rec_on = 1; return Val_unit; }
+/* stops recording; the calls as text "fn,level,srclen,cap,ret;..." */
+CAMLprim value vp_rec_stop(value unit)
+{
+	CAMLparam1(unit);
+	char buf[256 * 96]; size_t o = 0;
+	vp_rec_on = 0;
+	for (int i = 0; i < vp_ncalls; i++)
+		o += snprintf(buf + o, sizeof(buf) - o, "%d,%ld,%ld,%ld,%ld;", vp_calls[i].fn, vp_calls[i].level, vp_calls[i].srclen, vp_calls[i].cap, vp_calls[i].ret);
+	buf[o] = 0;
+	CAMLreturn(caml_copy_string(buf));
+}
+/* the libraries' own bound functions and level ranges: 0 LZ4_compressBound, 1 ZSTD_compressBound,
+   2 snappy_max_compressed_length, 3 ZSTD_minCLevel, 4 ZSTD_maxCLevel (n ignored) */
+CAMLprim value vp_lib_bound(value which, value n)
+{
+	int64_t x = Int64_val(n), r = -1;
+	switch (Long_val(which)) {
+	case 0: r = (x > INT_MAX) ? -1 : LZ4_compressBound((int) x); break;
+	case 1: r = (int64_t) ZSTD_compressBound((size_t) x); break;
+	case 2: r = (int64_t) snappy_max_compressed_length((size_t) x); break;
+	case 3: r = ZSTD_minCLevel(); break;
+	case 4: r = ZSTD_maxCLevel(); break;
+	}
+	return caml_copy_int64(r);
+}
+/* a compression / decompression call on a buffer that is only named, never dereferenced by a correct
+   wrapper: sizes above INT_MAX must be refused at once.  The buffer is a sparse zero mapping. */
+CAMLprim value vp_huge_call(value alg, value decompress, value size)
+{
+	size_t n = (size_t) Int64_val(size);
+	void *p = mmap(NULL, n, PROT_READ, MAP_PRIVATE | MAP_ANONYMOUS | MAP_NORESERVE, -1, 0);
+	uint8_t *out = NULL; size_t outlen = 0; mtbl_res r;
+	if (p == MAP_FAILED) return Val_long(-1);
+	if (Bool_val(decompress)) r = mtbl_decompress(Long_val(alg), p, n, &out, &outlen);
+	else r = mtbl_compress(Long_val(alg), p, n, &out, &outlen);
+	if (r == mtbl_res_success) free(out);
+	munmap(p, n);
+	return Val_long(r == mtbl_res_success ? 1 : 0);
+}
